@@ -365,6 +365,14 @@ func execC11(w *c11W, x *Exec) *Outcome {
 					// search with a query that extends an existing job's program half of the time
 					if op.Job < len(jobs) && i%2 == 0 {
 						q = append(append([]*gripql.GraphStatement{}, jobs[op.Job].prog...), gen.Out(), gen.Count())
+					} else if op.Job < len(jobs) && i%3 == 0 {
+						// nearly the program of an existing job: a list argument in another
+						// order, or with an element added twice (a different traversal as
+						// far as prefixes go)
+						if v := variantOfListArgs(jobs[op.Job].prog); v != nil {
+							q = append(v, gen.Count())
+							o.Count("searches_with_permuted_list_arguments", 1)
+						}
 					}
 					ss := &jobStatusStream{}
 					srv.Srv.SearchJobs(&gripql.GraphQuery{Graph: "g", Query: q}, ss)
@@ -476,4 +484,61 @@ func resultKind(rows []string) string {
 		}
 	}
 	return "other"
+}
+
+// variantOfListArgs returns prog with the first list-valued argument changed:
+// two elements swapped, or (one-element and empty lists) an element added
+// twice. nil when prog has no such argument.
+func variantOfListArgs(prog []*gripql.GraphStatement) []*gripql.GraphStatement {
+	js := gen.StmtsJSON(prog)
+	for i, st := range prog {
+		var l []string
+		mk := func(n []string) *gripql.GraphStatement { return nil }
+		switch x := st.Statement.(type) {
+		case *gripql.GraphStatement_V:
+			l, mk = listOf(x.V), func(n []string) *gripql.GraphStatement { return gen.V(n...) }
+		case *gripql.GraphStatement_E:
+			l, mk = listOf(x.E), func(n []string) *gripql.GraphStatement { return gen.E(n...) }
+		case *gripql.GraphStatement_Out:
+			l, mk = listOf(x.Out), func(n []string) *gripql.GraphStatement { return gen.Out(n...) }
+		case *gripql.GraphStatement_In:
+			l, mk = listOf(x.In), func(n []string) *gripql.GraphStatement { return gen.In(n...) }
+		case *gripql.GraphStatement_OutE:
+			l, mk = listOf(x.OutE), func(n []string) *gripql.GraphStatement { return gen.OutE(n...) }
+		case *gripql.GraphStatement_HasLabel:
+			l, mk = listOf(x.HasLabel), func(n []string) *gripql.GraphStatement { return gen.HasLabel(n...) }
+		case *gripql.GraphStatement_HasId:
+			l, mk = listOf(x.HasId), func(n []string) *gripql.GraphStatement { return gen.HasID(n...) }
+		default:
+			continue
+		}
+		var n []string
+		if len(l) >= 2 && l[0] != l[1] {
+			n = append([]string{l[1], l[0]}, l[2:]...)
+		} else {
+			n = append(append([]string{}, l...), "zz-twice", "zz-twice")
+		}
+		ns := mk(n)
+		if ns == nil || gen.StmtsJSON([]*gripql.GraphStatement{ns})[0] == js[i] {
+			continue
+		}
+		out := append([]*gripql.GraphStatement{}, prog...)
+		out[i] = ns
+		return out
+	}
+	return nil
+}
+
+func listOf(l interface{ AsSlice() []interface{} }) []string {
+	var out []string
+	if l == nil {
+		return out
+	}
+	defer func() { recover() }()
+	for _, v := range l.AsSlice() {
+		if s, ok := v.(string); ok {
+			out = append(out, s)
+		}
+	}
+	return out
 }
